@@ -378,7 +378,14 @@ class C03(Prop):
             "contents at once, occasionally an empty YAML file, an unopenable candidate (a directory / a symlink loop) or a damaged one its loader cannot parse); dict levels are handed over as plain dicts, as types.MappingProxyType or as a section of another config; 10% of the cases start from the class's stock global_defaults(); the "
             "environment names settings of the schema; levels are fed through the constructor or the "
             "load_* calls in a random order -- 45% of the cases with some or all loads deferred (merge=False) and "
-            "then an explicit merge() or load_shell_env() at the end --, load_shell_env last.  Non-trivial = at least 3 levels "
+            "then an explicit merge() or load_shell_env() at the end --, load_shell_env last.  40% of the cases go on "
+            "with a history of 2-7 edits through the configuration (the runtime-modifications level and its deletion "
+            "bookkeeping): del / pop / popitem / clear, assignment of leaves and of dicts, update(), setdefault(), "
+            "merge(), item or attribute syntax, at any depth; 60% of the writes are aimed at what an earlier edit "
+            "deleted -- the path itself, its parent section or a section further up, assigned a dict with or without "
+            "the deleted key.  Every run starts with a third (quick) / all (thorough) of a systematic family of 206 "
+            "'remove, then define again' histories (5 targets x 4-6 ways of removing x 4-14 ways of writing again) over "
+            "one three-level configuration.  Non-trivial = at least 3 levels "
             "define a common path; distinct by the whole case")
     trusted_base = [
         "Coq 8.16.1 kernel + vm_compute (shard evaluation)",
@@ -393,6 +400,10 @@ class C03(Prop):
         "the property's quantifier; other inputs are judged acceptable by the spec",
         "each level is loaded through the public API, file locations are set before the loads, the "
         "environment is read last and once (as documented)",
+        "edits through the configuration come after the (settled) load calls; what they delete stays deleted until "
+        "the path is written again; a deletion below a section that is then assigned a dict NOT defining the deleted "
+        "key may stay or be cancelled (the property does not say; the code cancels it); written values keep the case "
+        "type-consistent (a clash may raise AmbiguousMergeError: judging stops there)",
         "keys are ASCII strings (a non-string key makes load_shell_env() raise: known finding F-C03a, "
         "witnessed by an extra check); leaves None/bool/int/str/list/tuple",
         "a .py candidate that os.path.exists() denies (missing, dangling or looping link) loads as empty "
@@ -402,6 +413,8 @@ class C03(Prop):
         "the three file parsers (files are an abstract map location x suffix -> data)",
         "expanduser / Windows defaults for the system prefix",
         "the state of a Config after merge() raised",
+        "edits through proxies held across calls, edits interleaved with reloads, load_shell_env() after edits "
+        "(C06's subject); which item popitem() removes is read off the next view",
     ]
 
     def teardown(self):
@@ -651,10 +664,11 @@ class C03(Prop):
 
     def classify(self, case, obs):
         if "err" in obs:
-            return "err:" + obs["err"]
+            return "err:" + obs["err"] + ("+edits" if any(o[0] in MOD_OPS for o in case["ops"]) else "")
         lv = supplied_levels(case)
         n = sum(1 for t in lv.values() if t) + (1 if obs["ok"]["env"] else 0)
-        return "levels:%d" % n
+        m = sum(1 for o in case["ops"] if o[0] in MOD_OPS)
+        return "levels:%d" % n + ("+edits:%s" % (m if m < 4 else "4+") if m else "")
 
     def shrink_candidates(self, case):
         yield from cc.shrink_common(case)
@@ -665,6 +679,20 @@ class C03(Prop):
                  "ops": [list(o) for o in case["ops"]]}
             r = rng.random()
             loads = [i for i, o in enumerate(c["ops"]) if o[0].startswith("load_") and o[0] != "load_shell_env"]
+            if rng.random() < 0.25:
+                # a "delete, then define again through the parent" tail on a nested setting some level defines
+                lv = supplied_levels(c)
+                nested = [p for t in lv.values() for p in all_paths(t) if len(p) >= 2]
+                if nested:
+                    p = rng.choice(nested)
+                    if not c["ops"] or c["ops"][-1][0] not in ("merge", "load_shell_env"):
+                        c["ops"].append(["merge"])
+                    c["init"].pop("mapkind", None)
+                    inner = {}
+                    _set_path(inner, p[1:], "again")
+                    c["ops"] += [["del", "item", list(p[:-1]), p[-1]], ["set", "item", [], p[0], inner]]
+                    yield c
+                    continue
             if rng.random() < 0.3 and loads:
                 i = rng.choice(loads)
                 if not c["ops"][i][0].endswith("_d"):
